@@ -29,6 +29,14 @@ def cov_inv_diag(term):
     return np.ones(n)
 
 
+def herm_real(term):
+    """real-coordinate matrix of N^-1 = H H for a dense Hermitian noise operator on ONE complex array leaf
+    (coordinates [re..., im...]): 1/2 r^H N^-1 r = 1/2 [a;b]^T [[Re N, -Im N], [Im N, Re N]] [a;b]"""
+    H = np.array([[complex(*v) for v in r] for r in term["par"]["herm"]])
+    N = H @ H
+    return np.block([[N.real, -N.imag], [N.imag, N.real]])
+
+
 def _expand_cplx(term, per_elem):
     """per-data-element values -> per real coordinate (complex leaves doubled)"""
     out, off = [], 0
@@ -51,6 +59,12 @@ def fisher(term, y):
     """Fisher information matrix of the documented distribution of `term` at parameter value y (real coords)"""
     k = term["kind"]
     y = np.asarray(y, dtype=float)
+    if k in ("gaussian", "studentt") and term["par"].get("herm") is not None:
+        fac = 1.0
+        if k == "studentt":
+            th = float(term["par"]["dof"][0])
+            fac = (th + 1) / (th + 3)
+        return fac * herm_real(term)
     if k == "gaussian":
         # d ~ N(y, N), real or circular complex with E|d-y|^2 = 2/c per element (energy 1/2 r^H N^-1 r)
         return np.diag(_expand_cplx(term, cov_inv_diag(term)))
